@@ -1,7 +1,11 @@
 #!/usr/bin/env python3
 """print tie-1 skeleton theorems (expected = current /repo) for the given Gen.Skel names; to be reviewed and pasted
 into ShmVerif/Tie/Cnn.lean by hand. Usage: tools/bless.py bufferList_pop bufferList_push ..."""
-import json, sys
+import json, sys, subprocess
+# always re-extract from the CURRENT /repo first (a stale Gen from a mutated tree must never be blessed)
+subprocess.check_call(['/verif/.work/bin/extract', '/repo', '/verif/go/extract/targets.txt', '/verif/lean/ShmVerif/Gen'])
+if subprocess.run(['git','-C','/repo','status','--porcelain'],capture_output=True,text=True).stdout.strip():
+    sys.stderr.write('WARNING: /repo working tree is not clean\n')
 facts = json.load(open('/verif/lean/ShmVerif/Gen/facts.json'))
 def q(s):
     return '"' + s.replace('\\', '\\\\').replace('"', '\\"').replace('\t', ' ') + '"'
